@@ -1,9 +1,11 @@
 use crate::engine::Run;
 pub mod c01;
+pub mod c02;
 
 pub fn dispatch(prop: &str, run: Run) -> Option<i32> {
     Some(match prop {
         "C01" => c01::run(run),
+        "C02" => c02::run(run),
         _ => return None,
     })
 }
